@@ -195,8 +195,10 @@ def model_a(case):
                 trigger_get()
             elif op[0] == 'cancel':
                 i = op[1]
-                if i >= len(reqs) or i in cancelled:
-                    raise InvalidCase('cancel of an unknown / already cancelled request')
+                if i >= len(reqs):
+                    raise InvalidCase('cancel of an unknown request')
+                if i in cancelled:
+                    continue            # "Cancelling is idempotent": a second cancel changes nothing
                 cancelled.add(i)
                 if reqs[i]['state'] == 'pending':
                     reqs[i]['state'] = 'cancelled'
@@ -215,6 +217,73 @@ def model_a(case):
         else:
             insp.append((t + 0.5, [x if kind == 'pstore' else tv(x) for x in items], len(putq), len(getq)))
     return grants, insp, [r['state'] == 'granted' for r in reqs]
+
+
+# =============================================================================================
+# family A': Container with decimal (not exactly representable) amounts - invariants only, no grant model
+def run_dec(case):
+    """returns a list of (signature, message) of violated invariants: the level stays in [0, capacity] *literally*,
+    equals init + granted puts - granted gets up to rounding, and no head request that fits with a clear margin
+    is left pending between batches"""
+    env = Environment()
+    cap = INF if case['capacity'] is None else case['capacity']
+    if cap <= 0 or not (0 <= case['init'] <= cap):
+        raise InvalidCase('capacity / init')
+    res = Container(env, capacity=cap, init=case['init'])
+    reqs, bad = [], []
+    flow = [case['init']]
+    stale = [False]
+
+    def on_grant(sign, amount):
+        def cb(ev):
+            flow[0] += sign * amount
+        return cb
+
+    def driver():
+        for batch in case['batches']:
+            for op in batch:
+                if op[0] == 'fill':            # put exactly what is missing, as a user reading `level` would
+                    amount = round(cap - res.level, 2) if cap != INF else 0
+                    op = ['put', amount]
+                elif op[0] == 'drain':
+                    op = ['get', round(res.level, 2)]
+                if op[0] in ('put', 'get'):
+                    if op[1] <= 0:
+                        continue
+                    r = res.put(op[1]) if op[0] == 'put' else res.get(op[1])
+                    r.callbacks.append(on_grant(1 if op[0] == 'put' else -1, op[1]))
+                    reqs.append(r)
+                elif op[0] == 'cancel' and op[1] < len(reqs):
+                    if not reqs[op[1]].triggered:
+                        # cancel() only removes the request, the queue behind it is served by the next request or
+                        # completed put/get: 'nothing grantable is pending' is no longer implied
+                        stale[0] = True
+                    reqs[op[1]].cancel()
+                    reqs[op[1]].cancel()
+            yield env.timeout(1)
+
+    def inspector():
+        yield env.timeout(0.5)
+        for _ in case['batches']:
+            level = res.level
+            if not (0 <= level <= cap):
+                bad.append(('level_out_of_range', 'level %r at t=%r, capacity %r' % (level, env.now, cap)))
+            if abs(level - flow[0]) > 1e-9 * (1 + abs(flow[0])):
+                bad.append(('not_conserved', 'level %r at t=%r, init + granted puts - granted gets = %r' % (level, env.now, flow[0])))
+            if stale[0]:
+                pass
+            elif res.put_queue and cap - level - res.put_queue[0].amount > 1e-9:
+                bad.append(('grantable_put_pending', 'put(%r) pending at t=%r with level %r of %r' % (
+                    res.put_queue[0].amount, env.now, level, cap)))
+            if not stale[0] and res.get_queue and level - res.get_queue[0].amount > 1e-9:
+                bad.append(('grantable_get_pending', 'get(%r) pending at t=%r with level %r' % (
+                    res.get_queue[0].amount, env.now, level)))
+            yield env.timeout(1)
+
+    env.process(driver())
+    env.process(inspector())
+    env.run()
+    return bad
 
 
 # =============================================================================================
@@ -258,6 +327,27 @@ def run_b(case):
                 log.append(('interrupt', env.now))
             return False
 
+        if u.get('style') == 'explicit':
+            # request / release without a with-block; the release is repeated (documented as idempotent)
+            req = make(u)
+            log.append(('request', env.now))
+            try:
+                yield req
+                log.append(('granted', env.now))
+                if u['hold']:
+                    yield env.timeout(u['hold'])
+                log.append(('release', env.now))
+                yield res.release(req)
+                if u.get('twice'):
+                    yield res.release(req)
+            except Interrupt as it:
+                handle(it)
+                if req.triggered:
+                    res.release(req)
+                else:
+                    req.cancel()
+                req.cancel()
+            return
         while True:
             # (a retry issues its new requests from the segment that handled the Interrupt)
             again = False
@@ -448,6 +538,31 @@ def cases(draw, tier):
     big = tier == 'thorough'
     fam = draw(st.sampled_from(['container', 'store', 'pstore', 'fstore', 'resource', 'presource', 'preemptive',
                                 'presource', 'preemptive', 'fstore']))
+    if fam == 'container' and draw(st.integers(0, 1)):
+        # decimal amounts: sums are rounded, 'fill' / 'drain' aim exactly at the bounds
+        dec = st.integers(1, 120).map(lambda k: k / 100)
+        cap = draw(st.integers(1, 40).map(lambda k: k / 10))
+        case = {'kind': 'container', 'dec': True, 'capacity': cap, 'init': draw(st.integers(0, 30).map(lambda k: min(k / 100, cap))),
+                'batches': []}
+        n = 0
+        for _ in range(draw(st.integers(2, 8))):
+            batch = []
+            for _ in range(draw(st.integers(0, 3))):
+                r = draw(st.integers(0, 11))
+                if r < 3:
+                    batch.append(['put', draw(dec)])
+                elif r < 6:
+                    batch.append(['get', draw(dec)])
+                elif r < 9:
+                    batch.append(['fill'])
+                elif r < 10:
+                    batch.append(['drain'])
+                elif n:
+                    batch.append(['cancel', draw(st.integers(0, n - 1))])
+                    n -= 1
+                n += 1
+            case['batches'].append(batch)
+        return case
     if fam in ('container', 'store', 'pstore', 'fstore'):
         cap = draw(st.sampled_from([None, 1, 2, 3, 5]))
         case = {'kind': fam, 'capacity': cap, 'batches': []}
@@ -522,6 +637,9 @@ def cases(draw, tier):
             u['preempt'] = draw(st.integers(0, 4)) > 0
         if mode in ('burst', 'both') and draw(st.integers(0, 2)) == 0:
             u['burst'] = draw(st.integers(2, 3))
+        elif mode == 'plain' and u['patience'] is None and draw(st.integers(0, 3)) == 0:
+            u['style'] = 'explicit'
+            u['twice'] = draw(st.booleans())
         users.append(u)
     cap = draw(st.integers(1, 3))
     if mode in ('retry', 'both'):
@@ -576,6 +694,17 @@ class C19(Check):
 
     def family_a(self, out, case):
         kind = case['kind']
+        if case.get('dec'):
+            try:
+                bad = run_dec(case)
+            except BaseException as e:   # noqa
+                out.fail('run', 'container_dec:%s' % type(e).__name__, 'history raised %r' % (e,))
+                return
+            for sig, msg in bad[:1]:
+                out.fail('bounds' if sig == 'level_out_of_range' else 'state', 'container_dec:' + sig, msg + '; history %r' % (case,))
+            out.features.add('container_decimal_amounts')
+            out.nontrivial = any(op[0] in ('fill', 'drain') for b in case['batches'] for op in b)
+            return
         want_g, want_i, want_t = model_a(case)
         try:
             got_g, got_i, got_t = run_a(case)
